@@ -257,6 +257,16 @@ func coerce(v any, kind string) any {
 			}
 			return out
 		}
+		if strings.HasPrefix(kind, "array:") { // typed default of a list of any primitive kind (defaults.go)
+			if t, ok := typedSlice(kind, x); ok {
+				return t
+			}
+		}
+		return x
+	case map[string]any:
+		if t, ok := typedMap(kind, x); ok { // typed default of a map (defaults.go)
+			return t
+		}
 		return x
 	}
 	return v
@@ -265,6 +275,9 @@ func coerce(v any, kind string) any {
 func kindOf(t ad.TRef) string {
 	if t.Kind == "array" && t.Elem != nil {
 		return "array:" + t.Elem.Kind
+	}
+	if t.Kind == "map" && t.Key != nil && t.Elem != nil {
+		return "map:" + t.Key.Kind + ":" + t.Elem.Kind
 	}
 	return t.Kind
 }
